@@ -263,6 +263,28 @@ def check_frame(fc):
             out.fail('surplus octets / trailing bytes change the decoded values', subset=i, index=d[0], got=d[1], expected=d[2],
                      surplus=fc.surplus)
             break
+    # the decoder's options change nothing about the framing of a well-formed message
+    for kw in ({'ignore_value_expectation': True}, {'wire_template_data': False},
+               {'ignore_value_expectation': True, 'wire_template_data': False}):
+        o2 = sut.call(decoder().process, fc.lead + b + fc.tail, **kw)
+        tag = ','.join(sorted(kw))
+        if not o2.ok:
+            out.fail('decode of the same message with [%s] raised %s@%s' % (tag, o2.exc_type, o2.frame), error=o2.msg,
+                     surplus=fc.surplus, section2=case.meta.get('section2') is not None)
+            continue
+        m2 = o2.value
+        if m2.serialized_bytes != b:
+            out.fail('serialized_bytes is not exactly the span from BUFR to 7777 [%s]' % tag, n_got=len(m2.serialized_bytes), n=len(b))
+        got_lens = {s.get_metadata('index'): s.section_length.value for s in m2.sections if 'section_length' in s}
+        want_lens = {k: v for k, v in fc.info['lengths'].items() if k in (1, 2, 3, 4)}
+        if got_lens != want_lens:
+            out.fail('sections / section lengths differ with [%s]' % tag, got=got_lens, declared=want_lens)
+        ob2 = sut.observe(m2) if kw.get('wire_template_data', True) else {'values': m2.template_data.value.decoded_values_all_subsets}
+        for i in range(case.nsub):
+            d = first_value_diff(ob2['values'][i], case.values()[i])
+            if d is not None:
+                out.fail('decoded values differ with [%s]' % tag, subset=i, index=d[0], got=d[1], expected=d[2])
+                break
     if fc.shorten:
         k, d = fc.shorten
         out.classes.append('shortened_section_%d' % k)
